@@ -51,11 +51,16 @@ def build_inner(sc):
             est = sut.SimpleRampdown()
         elif em == "stub":
             est = StubEstimator(stub_bounds(sc))
-        kw = dict(estimate_max_rate=est is not None, max_rate_estimator=est,
-                  uninterrupted_charging=p.get("uninterrupted", False))
+        kw = {}
+        if est is not None:
+            kw.update(estimate_max_rate=True, max_rate_estimator=est)
+        if p.get("uninterrupted", False):
+            kw["uninterrupted_charging"] = True
         if k == "greedy":
             return sut.SortedSchedulingAlgo(sut.SORTS[p["sort"]], **kw)
-        return sut.RoundRobin(sut.SORTS[p["sort"]], continuous_inc=p.get("continuous_inc", 1), **kw)
+        if p.get("continuous_inc", 1) != 0.1:         # (0.1 is the library's documented default: left implicit)
+            kw["continuous_inc"] = p.get("continuous_inc", 1)
+        return sut.RoundRobin(sut.SORTS[p["sort"]], **kw)
     return None
 
 
